@@ -243,6 +243,18 @@ func (h *history) opAt(c uint64) int {
 	return len(h.ops) - 1
 }
 
+// knobsAt: the configuration the node is restarted with after a crash at c = the one of the
+// session that was running (a crash inside a reopen that changes it: the new one).
+func (h *history) knobsAt(k Knobs, c uint64) Knobs {
+	if i := h.opAt(c); i >= 0 {
+		if h.ops[i].kind != "reopen" && c == h.ops[i].startSeq && i > 0 {
+			i--
+		}
+		k.Snapshots = h.ops[i].snaps
+	}
+	return k
+}
+
 // target is the block the rebooted node is asked to reach again: the twin's head
 // after the interrupted operation if that operation imports or selects blocks,
 // otherwise the twin's head before it.
@@ -359,7 +371,7 @@ func runCrash(p *Plan, tree *refTree, res *simcore.Result) {
 			}
 			img := model.CrashImage(mode, dr, stats)
 			res.Reboots++
-			rb := &rebooter{p: p, tree: tree, h: h, res: res, engine: engine, cut: c, draw: d, lost: lost}
+			rb := &rebooter{p: p, kn: h.knobsAt(p.Knobs, c), tree: tree, h: h, res: res, engine: engine, cut: c, draw: d, lost: lost}
 			if p.Nested > 0 && (p.MaxCuts == 0 || dr.Bool(0.5) || hint) {
 				rb.nest = &nestRec{}
 			}
@@ -436,6 +448,7 @@ type rebooter struct {
 	// nested crashes: a level-0 reboot with nest set records its own writes (key-value
 	// units and file events) so that a second crash can be cut into the restart; a level-1
 	// reboot runs on such an image (log2/cut2 = the first restart's units up to the cut)
+	kn    Knobs // configuration in force at the cut (a reopen may have changed it)
 	level int
 	nest  *nestRec
 	log2  []simdisk.KVOp
@@ -475,8 +488,8 @@ func (rb *rebooter) run(model *simdisk.FSModel, img map[string][]byte, mem *memo
 		rb.nest.base = simdisk.CopyMem(mem)
 	}
 	kv := simdisk.FromMem(mem, nil)
-	if rb.p.Knobs.ValueScale > 1 {
-		kv.ValueSizeScale = rb.p.Knobs.ValueScale
+	if rb.kn.ValueScale > 1 {
+		kv.ValueSizeScale = rb.kn.ValueScale
 	}
 	if rb.nest != nil {
 		rb.nest.root = nroot
@@ -499,7 +512,7 @@ func (rb *rebooter) run(model *simdisk.FSModel, img map[string][]byte, mem *memo
 			}
 		}()
 	}
-	w := &world{knobs: rb.p.Knobs, tree: rb.tree, root: nroot, clock: kv.Clock, kv: kv, engine: rb.engine, res: rb.res, bubble: true,
+	w := &world{knobs: rb.kn, tree: rb.tree, root: nroot, clock: kv.Clock, kv: kv, engine: rb.engine, res: rb.res, bubble: true,
 		live: map[logKey]bool{}, universe: rb.tree.universe(), trace: simcore.NewHash(), stateFP: simcore.NewHash(), headNode: -1, finalNode: -2, dupLogBlock: -2, crashed: true, unexecuted: map[int]bool{}, badBlock: -2}
 	defer func() {
 		// best-effort tear-down; a wedged chain after a violation must not hide it
@@ -538,7 +551,7 @@ func (rb *rebooter) run(model *simdisk.FSModel, img map[string][]byte, mem *memo
 		if fh := rawdb.ReadFinalizedBlockHash(db); fh != (common.Hash{}) {
 			rb.imgFinal, _ = rawdb.ReadHeaderNumber(db, fh)
 		}
-		bc, err := core.NewBlockChain(db, rb.tree.gspec, rb.engine, rb.p.Knobs.configWait(nroot, false))
+		bc, err := core.NewBlockChain(db, rb.tree.gspec, rb.engine, rb.kn.configWait(nroot, false))
 		if err != nil {
 			v := viol("reboot-chain-failed", "NewBlockChain on the crash image failed: %v", err)
 			v.Key = "reboot-chain-failed:" + rb.modeKey() + ":" + classOf(err.Error())
@@ -633,7 +646,7 @@ func (rb *rebooter) judge(w *world, bound int64, boundWhy string) *simcore.Viola
 			// head but genesis ("Genesis state is missing, wait state sync")
 			v.Key = "reboot-head-state-missing:sethead-to-genesis-interrupted-before-state-recovery"
 		}
-		if v.Oracle == "reboot-head-state-missing" && cv.head == 0 && opk < 0 && rb.p.Knobs.Scheme == rawdb.PathScheme && !rb.p.Knobs.NoAsync {
+		if v.Oracle == "reboot-head-state-missing" && cv.head == 0 && opk < 0 && rb.kn.Scheme == rawdb.PathScheme && !rb.kn.NoAsync {
 			// Genesis.Commit writes the genesis block batch while the asynchronous flush of
 			// the genesis state is still in flight
 			v.Key = "reboot-head-state-missing:genesis-block-written-before-async-state-flush"
@@ -765,7 +778,7 @@ func (rb *rebooter) noLossBound(db ethdb.Database) (int64, string) {
 		return -1, "no head marker"
 	}
 	persisted := func(root common.Hash) bool { return rawdb.HasLegacyTrieNode(db, root) }
-	if rb.p.Knobs.Scheme == rawdb.PathScheme {
+	if rb.kn.Scheme == rawdb.PathScheme {
 		blob := rawdb.ReadAccountTrieNode(db, nil)
 		disk := types.EmptyRootHash
 		if len(blob) > 0 {
@@ -782,7 +795,7 @@ func (rb *rebooter) noLossBound(db ethdb.Database) (int64, string) {
 		}
 	}
 	limit := int64(1 << 62)
-	if rb.p.Knobs.Scheme == rawdb.HashScheme && rb.p.Knobs.Snapshots && !persisted(rb.tree.blockOf(m).Root()) {
+	if rb.kn.Scheme == rawdb.HashScheme && rb.kn.Snapshots && !persisted(rb.tree.blockOf(m).Root()) {
 		// the rewind has to pass the snapshot's disk layer root
 		if sr := rawdb.ReadSnapshotRoot(db); sr != (common.Hash{}) {
 			limit = -1
@@ -916,7 +929,7 @@ func (rb *rebooter) restartedBefore() bool {
 // lowered, persistent state not yet rolled back" (path scheme: the marker block's state
 // is only recoverable from the state history).
 func (rb *rebooter) probeRewindWindow(db ethdb.Database) {
-	if rb.p.Knobs.Scheme != rawdb.PathScheme {
+	if rb.kn.Scheme != rawdb.PathScheme {
 		return
 	}
 	m := rb.tree.nodeOf(rawdb.ReadHeadBlockHash(db))
@@ -1080,7 +1093,7 @@ func (rb *rebooter) secondCrash(model *simdisk.FSModel, img map[string][]byte, d
 		mem2 := simdisk.MaterialiseKVOn(nd.base, nd.log, c2)
 		rb.res.Reboots++
 		stats["second-crash"]++
-		rb2 := &rebooter{p: rb.p, tree: rb.tree, h: rb.h, res: rb.res, engine: rb.engine, cut: rb.cut, draw: draw, lost: rb.lost, level: 1, log2: nd.log, cut2: c2}
+		rb2 := &rebooter{p: rb.p, kn: rb.kn, tree: rb.tree, h: rb.h, res: rb.res, engine: rb.engine, cut: rb.cut, draw: draw, lost: rb.lost, level: 1, log2: nd.log, cut2: c2}
 		v := rb2.run(m2, img2, mem2)
 		*fp = fp.U64(c2).U64(b2u(power)).U64(rb2.headNum)
 		if v == nil {
